@@ -149,7 +149,7 @@ func (r *TaskRunner) Run(t *task.Task) error {
 	env = env.With("TASK_NAME", t.Name)
 	env = env.Merge(t.Env)
 
-	meets, err := r.checkTaskCondition(t, execContext)
+	meets, err := r.checkTaskCondition(t, execContext, env, vars)
 	if err != nil {
 		return err
 	}
@@ -283,12 +283,12 @@ func (r *TaskRunner) contextForTask(t *task.Task) (c *ExecutionContext, err erro
 	return c, nil
 }
 
-func (r *TaskRunner) checkTaskCondition(t *task.Task, executionContext *ExecutionContext) (bool, error) {
+func (r *TaskRunner) checkTaskCondition(t *task.Task, executionContext *ExecutionContext, env, vars variables.Container) (bool, error) {
 	if t.Condition == "" {
 		return true, nil
 	}
 
-	job, err := r.compiler.CompileCommand(t.Condition, executionContext, t.Dir, t.Timeout, nil, r.Stdout, r.Stderr, r.env, r.variables)
+	job, err := r.compiler.CompileCommand(t.Condition, executionContext, t.Dir, t.Timeout, nil, r.Stdout, r.Stderr, env, vars)
 	if err != nil {
 		return false, err
 	}
